@@ -165,7 +165,35 @@ def gen_case(rng, thorough=False, maxops=60):
     have = set()
     polys_in = []
     hist = {}            # feature -> ranges set so far
+    keys = {}            # feature -> which of its two keys are set
+
+    def track(op):
+        t, f = op[0], (op[1][0] if op[1] else None)
+        if t in (T_SETRANGE,):
+            keys[f] = {"min", "max"}
+        elif t == T_DELRANGE:
+            keys[f] = set()
+        elif t in (T_SETMIN, T_SETMAX):
+            keys.setdefault(f, set()).add("min" if t == T_SETMIN else "max")
+        elif t in (T_DELMIN, T_DELMAX):
+            keys.setdefault(f, set()).discard(
+                "min" if t == T_DELMIN else "max")
+
     for _ in range(nops):
+        if ops:
+            track(ops[-1])
+        half = sorted(f for f, ks in keys.items() if len(ks) == 1)
+        if half and rng.random() < 0.4:
+            # complete or drop the range that has one key only
+            f = rng.choice(half)
+            col = cols.get(f, [[0, 0], [0, 8]])
+            has = next(iter(keys[f]))
+            if rng.random() < 0.6:
+                ops.append([T_SETMAX if has == "min" else T_SETMIN, [f],
+                            [gen_bound(rng, col)]])
+            else:
+                ops.append([T_DELMIN if has == "min" else T_DELMAX, [f], []])
+            continue
         r = rng.random()
         if r < 0.04 and hist:
             # back to a range this feature had before
@@ -697,17 +725,31 @@ def shrink(run, failure):
                 changed = True
                 break
     small = dict(case, ops=ops)
-    # fewer events
-    while small["n"] > 1:
-        n2 = small["n"] - 1
-        cand = dict(small, n=n2,
-                    data={f: col[:n2] for f, col in small["data"].items()},
-                    ops=[o for o in small["ops"]
-                         if not (o[0] == T_MANUAL and o[1][0] >= n2)])
-        if _fails(cand):
-            small = cand
-        else:
+    # fewer events (any position), as long as no op names a dropped index
+    changed = True
+    while changed and small["n"] > 1:
+        changed = False
+        for e in range(small["n"] - 1, -1, -1):
+            if any(o[0] == T_MANUAL for o in small["ops"]):
+                break
+            cand = dict(small, n=small["n"] - 1,
+                        data={f: col[:e] + col[e + 1:]
+                              for f, col in small["data"].items()})
+            if _fails(cand):
+                small = cand
+                changed = True
+                break
+    # fewer features
+    for f in sorted(small["data"]):
+        if len(small["data"]) < 2:
             break
+        used = any(o[0] in RANGE_TAGS and o[1][0] == f for o in small["ops"]) \
+            or any(f in v["axes"] for v in small["versions"])
+        if not used:
+            cand = dict(small, data={g: c for g, c in small["data"].items()
+                                     if g != f})
+            if _fails(cand):
+                small = cand
     return dict(case=small, desc=run_impl(small)["fail"],
                 finding=classify(small, ""))
 
